@@ -132,7 +132,7 @@ func Body(spec ScenarioSpec, mk func() []Oracle) func(s *vsched.Sched) {
 			s.Settle()
 		}
 		// a scripted fault that spans RPC timeouts takes longer than that
-		for i := 0; i < 150 && (spec.Fault == "failed-become-leader" || spec.Fault == "swap-snapshot-lead") && !faultDone; i++ {
+		for i := 0; i < 150 && (spec.Fault == "failed-become-leader" || spec.Fault == "swap-snapshot-lead" || spec.Fault == "swap-holder") && !faultDone; i++ {
 			s.Sleep(2 * time.Second)
 			s.Settle()
 		}
@@ -338,6 +338,50 @@ func rollingIsolation(c *Cluster, s *vsched.Sched, obs *Obs, rounds int) {
 		// the old leader is fenced and re-attached by the coordinator's retry loop
 		s.Sleep(4 * time.Second)
 	}
+}
+
+// swapHolder: one follower is behind (the leader does not reach it), a write is acknowledged by the leader and
+// the other follower; the coordinator then swaps that other follower - one of the two holders of the write -
+// for a new node while it cannot reach the leader. Only the leader is out of reach (a minority): the write
+// must still be there when the shard serves again.
+func swapHolder(c *Cluster, s *vsched.Sched, obs *Obs) {
+	l, _ := c.LeaderByStatus()
+	if l == "" || c.SC == nil {
+		return
+	}
+	var others []string
+	for _, n := range []string{"n1", "n2", "n3"} {
+		if n != l {
+			others = append(others, n)
+		}
+	}
+	w := func(key, val string) {
+		ld, _ := c.LeaderByStatus()
+		if ld == "" {
+			return
+		}
+		op := &ClientOp{Client: 1, Kind: "put", Key: key, Value: val, Invoke: s.Steps(), Node: ld}
+		obs.Ops = append(obs.Ops, op)
+		if resp, err := c.Write(ld, put(key, val)); err == nil && resp.Puts[0].Status == proto.Status_OK {
+			op.OK, op.Version, op.Status = true, resp.Puts[0].Version.VersionId, "OK"
+		} else {
+			op.Unknown = true
+		}
+		op.Return = s.Steps()
+	}
+	w("k0", "base")
+	s.Sleep(200 * time.Millisecond)
+	behind, holder := others[0], others[1]
+	c.CutReplicationTo(behind)
+	w("k1", "held-by-leader-and-one-follower")
+	s.Sleep(200 * time.Millisecond)
+	c.CoordCut[l] = true
+	_ = c.SC.SwapNode(c.Nodes[holder].Addr, c.Nodes["n4"].Addr)
+	s.Sleep(3 * time.Second)
+	delete(c.CoordCut, l)
+	delete(c.ReplCutTo, behind)
+	s.Sleep(3 * time.Second)
+	dbg("swap-holder: leader was %s, behind %s, swapped %s; final leader %v", l, behind, holder, func() string { x, _ := c.LeaderByStatus(); return x }())
 }
 
 // failedBecomeLeader: a leader with an uncommitted tail is re-elected (it has the best log
@@ -653,6 +697,8 @@ func faultThread(c *Cluster, s *vsched.Sched, spec ScenarioSpec) {
 		swapSnapshotLead(c, s, specObs)
 	case "failed-become-leader":
 		failedBecomeLeader(c, s, specObs)
+	case "swap-holder":
+		swapHolder(c, s, specObs)
 	case "client-cancel":
 		// client 0 gives up on its first write at some point
 		cancelFn()
